@@ -243,6 +243,23 @@ func Play(r *rand.Rand, s *Scenario, o PlayOpts, rec *Recorder) (blocks []BlockR
 				if err == nil {
 					rec.BuildLine(s, bev, te.Frame())
 					rec.Stats["rich_builds"]++
+					if te.Frame() > ev.MaxFr && ev.MaxFr >= ev.Frame {
+						// the sparser real event claiming the frame of the richer candidate that was only built: not allowed
+						cl := s.CloneWithFrame(ev, te.Frame(), cloneID)
+						cloneID++
+						s.Input[cl.ID()] = cl
+						nb := len(in.Blocks)
+						err, crit := guarded(func() error { return in.L.Process(cl) })
+						if crit {
+							rec.Crit(err.Error())
+							return in.Blocks, true
+						}
+						rec.ProcessCloneLine(s, in, ev, cloneID, te.Frame(), err, in.Blocks[nb:])
+						rec.Stats["clone_claims_built_frame"]++
+						if err != nil {
+							delete(s.Input, cl.ID())
+						}
+					}
 				}
 			}
 			if o.BuildEach {
